@@ -170,6 +170,40 @@ func (propC11) Generate(r *Rand, tier string) []Case {
 			in := engIn{Doc: doc, Q: q, SQL: q.SQL()}
 			out = append(out, Case{Input: in, Tags: []string{tag}, Nontrivial: len(t.rows) >= 2, Key: q.SQL() + fmt.Sprint(doc)})
 		}
+		// features outside the engine model (the purity observation needs no model): FUSE in every position of the
+		// select list, multi-dimensional selectors with ranges in FROM and in columns, top-level functions, INTO / USING
+		// joins, UNWIND, effect-only functions
+		for i := 0; i < 12; i++ {
+			t := genTable(r, 4)
+			for len(t.rows) < 2 {
+				t = genTable(r, 4)
+			}
+			shelves := []any{}
+			for k := 0; k < 2+r.Intn(2); k++ {
+				inner := make([]any, 0, 8)
+				for j := 0; j < 3+r.Intn(2); j++ {
+					inner = append(inner, map[string]any{"id": float64(10*k + j), "n1": float64(j)})
+				}
+				shelves = append(shelves, inner)
+			}
+			for _, row := range t.rows {
+				m := row.(map[string]any)
+				m["bins"] = []any{[]any{float64(1), float64(2), float64(3)}, []any{float64(4), float64(5), float64(6)}}
+				m["tags"] = []any{"a", "b", "c", "d"}
+			}
+			doc := map[string]any{"t": t.rows, "u": genTable(r, 3).rows, "shelves": shelves}
+			for _, sql := range []string{
+				"SELECT FUSE(o), id, s1 AS label FROM t", "SELECT id, FUSE(o), s1 AS label FROM t", "SELECT id, s1 AS label, FUSE(o) FROM t", "SELECT FUSE(o) AS p, id FROM t",
+				"SELECT FUSE(o) FROM t", "SELECT FUSE(`o.p`), n1 AS q FROM t",
+				"SELECT * FROM `shelves[each:(0:2)]`", "SELECT * FROM `shelves[each:(1:2)]` WHERE id > 0", "SELECT id, `bins[each:(0:2)]` AS b FROM t", "SELECT id, `bins[each:(1:2)]` AS b, `tags[(1:end)]` AS r FROM t",
+				"SELECT id FROM `shelves[keep=>each:(0:1)]`", "SELECT * FROM `mix=>shelves`", "SELECT id, `distinct=>tags` AS d FROM t", "SELECT * FROM `shelves[0:(begin:2)]`",
+				"SELECT * FROM t x JOIN u y USING (id)", "SELECT UNWIND(tags) AS g, id FROM t", "SELECT id, FIRST(tags) AS f, LAST(bins) AS l FROM t",
+				"SELECT ELEMENTAT(bins, 0) AS e, id FROM t ORDER BY id DESC", "SELECT id, ARRAY(tags, bins) AS a FROM t",
+			} {
+				q := &Stmt{Raw: sql}
+				out = append(out, Case{Input: engIn{Doc: doc, Q: q, SQL: sql}, Tags: []string{"shape:outside-the-model", "raw-sql"}, Nontrivial: true, Key: sql + fmt.Sprint(i)})
+			}
+		}
 	}
 	return out
 }
